@@ -397,6 +397,10 @@ func keysOf(m map[string][]string) []string {
 
 // c39RoundTrip runs one frame sequence. class labels and non-triviality are computed here.
 func c39RoundTrip(tb ev.TB, rec *ev.Rec, seq []c39Frame, origin string) {
+	c39RoundTripP(tb, rec, seq, origin, nil)
+}
+
+func c39RoundTripP(tb ev.TB, rec *ev.Rec, seq []c39Frame, origin string, pre *c39Prelude) {
 	var desc []string
 	nHdrFrames, nonASCII, lenChanging, multi, upper := 0, false, false, false, false
 	for _, f := range seq {
@@ -438,8 +442,36 @@ func c39RoundTrip(tb ev.TB, rec *ev.Rec, seq []c39Frame, origin string) {
 	if upper {
 		classes = append(classes, "a:upper-case-name")
 	}
-	rec.Case("a|"+strings.Join(desc, "|"), nHdrFrames >= 2 || nonASCII, classes...)
+	bigBlock := false
+	for _, f := range seq {
+		for _, h := range f.Hdrs {
+			for _, v := range h.Values {
+				if isNoise(v) {
+					bigBlock = true
+				}
+			}
+		}
+	}
+	if bigBlock {
+		classes = append(classes, "a:incompressible-value>=20KB")
+	}
+	fpr := "a|" + strings.Join(desc, "|")
 	witness := map[string]any{"part": "a", "frames": desc}
+	preFailed := false
+	if pre != nil {
+		var pd []string
+		for _, f := range pre.Frames {
+			pd = append(pd, f.String())
+		}
+		witness["earlier_framer"] = map[string]any{"frames": pd, "transport_fails_after_bytes": pre.Budget}
+		fpr = fmt.Sprintf("pre(%d)|%s||%s", pre.Budget, strings.Join(pd, "|"), fpr)
+		preFailed = pre.run(tb)
+		classes = append(classes, "a:earlier-framer-released")
+		if preFailed {
+			classes = append(classes, "a:earlier-framer-write-failed")
+		}
+	}
+	rec.Case(fpr, nHdrFrames >= 2 || nonASCII || (preFailed && nHdrFrames >= 1), classes...)
 
 	var wire bytes.Buffer
 	wf, err := bfe_spdy.NewFramer(&wire, nil)
@@ -468,6 +500,9 @@ func c39RoundTrip(tb ev.TB, rec *ev.Rec, seq []c39Frame, origin string) {
 		}
 		b := append([]byte(nil), wire.Bytes()...)
 		names, key, e := refCheckWire(b, f, u)
+		if e != nil && preFailed && strings.HasPrefix(key, "wire-block") {
+			key = "stale-block-after-failed-write-on-released-framer"
+		}
 		if e != nil {
 			rec.Fail(tb, key, witness, "frame %d %s: written bytes do not encode the frame: %v", i, f, e)
 			return // context is unusable behind a malformed block
@@ -548,11 +583,78 @@ func genValue(rt *rapid.T, allowLong bool) string {
 		seed := rapid.SliceOfN(rapid.ByteRange(1, 255), 1, 16).Draw(rt, "midSeed")
 		b = bytes.Repeat(seed, n/len(seed)+1)[:n]
 	default:
+		if rapid.Bool().Draw(rt, "incompressible") {
+			// poorly compressible (a big opaque cookie): the compressed header block itself gets large
+			return noiseValue(rapid.Uint64().Draw(rt, "noiseSeed"), rapid.IntRange(20000, 70000).Draw(rt, "noiseLen"))
+		}
 		n := rapid.IntRange(60000, 70000).Draw(rt, "longLen")
 		seed := rapid.SliceOfN(rapid.ByteRange(1, 255), 1, 64).Draw(rt, "longSeed")
 		b = bytes.Repeat(seed, n/len(seed)+1)[:n]
 	}
 	return string(b)
+}
+
+// isNoise: a long value without a short period (the long compressible class repeats a seed of <= 64 bytes).
+func isNoise(v string) bool {
+	if len(v) < 20000 {
+		return false
+	}
+	for p := 1; p <= 64; p++ {
+		if v[p:p+256] == v[:256] {
+			return false
+		}
+	}
+	return true
+}
+
+// noiseValue is a deterministic pseudo-random (incompressible) header value without NUL bytes.
+func noiseValue(seed uint64, n int) string {
+	x := seed | 1
+	b := make([]byte, n)
+	for i := range b {
+		x ^= x << 13
+		x ^= x >> 7
+		x ^= x << 17
+		b[i] = byte(x>>24)%255 + 1
+	}
+	return string(b)
+}
+
+// c39Prelude is an earlier "connection" of the same process: a Framer that writes header frames to a
+// transport which fails after Budget bytes, and is then released (as serverConn does on teardown).
+// Framers recycle their compression context through a pool, so the case's own Framer may inherit it.
+type c39Prelude struct {
+	Frames []c39Frame
+	Budget int
+}
+
+type failAfter struct{ left int }
+
+func (w *failAfter) Write(p []byte) (int, error) {
+	if len(p) > w.left {
+		n := w.left
+		w.left = 0
+		return n, fmt.Errorf("transport closed")
+	}
+	w.left -= len(p)
+	return len(p), nil
+}
+
+// run plays the prelude; it reports whether a write failed.
+func (p *c39Prelude) run(tb ev.TB) (failed bool) {
+	fr, err := bfe_spdy.NewFramer(&failAfter{left: p.Budget}, nil)
+	if err != nil {
+		tb.Fatalf("NewFramer: %v", err)
+	}
+	for _, f := range p.Frames {
+		var werr error
+		if pv := ev.Try(func() { werr = fr.WriteFrame(f.build()) }); pv != nil || werr != nil {
+			failed = true
+			break // a connection is torn down at its first write error
+		}
+	}
+	fr.ReleaseWriter()
+	return
 }
 
 func genHeaders(rt *rapid.T, lc bool) []c39Hdr {
@@ -667,6 +769,21 @@ func c39Sweep(t *testing.T, rec *ev.Rec) {
 		c39RoundTrip(t, rec, []c39Frame{f}, "sweep")
 	}
 	c39RoundTrip(t, rec, base, "sweep")
+	// a large, poorly compressible header value in the middle of a history, on each header-bearing kind
+	for _, kind := range []string{"syn_stream", "syn_reply", "headers"} {
+		for _, n := range []int{20000, 33000, 48000, 70000} {
+			small := c39Frame{Kind: "syn_reply", StreamId: 1, Hdrs: hdr}
+			big := c39Frame{Kind: kind, StreamId: 3, Hdrs: []c39Hdr{{"cookie", []string{noiseValue(uint64(n), n)}}, {"x-a", []string{"b"}}}}
+			c39RoundTrip(t, rec, []c39Frame{small, big, {Kind: "headers", StreamId: 3, Hdrs: hdr}, {Kind: "syn_stream", StreamId: 5, Hdrs: hdr}, big, small}, "sweep")
+		}
+	}
+	// an earlier Framer whose transport fails inside a header frame is released; the next Framer must be clean
+	for _, kind := range []string{"syn_stream", "syn_reply", "headers"} {
+		for _, budget := range []int{0, 7, 8, 12, 20, 60, 1 << 20} {
+			pre := &c39Prelude{Frames: []c39Frame{{Kind: "ping", Id: 1}, {Kind: kind, StreamId: 1, Hdrs: []c39Hdr{{"x-earlier-connection", []string{"secret-of-another-client"}}, {"set-cookie", []string{noiseValue(7, 300)}}}}}, Budget: budget}
+			c39RoundTripP(t, rec, []c39Frame{{Kind: "syn_reply", StreamId: 1, Hdrs: hdr}, {Kind: "headers", StreamId: 1, Hdrs: hdr}}, "sweep", pre)
+		}
+	}
 	for _, n := range c39SpecialNames {
 		if c39HopNames[asciiLower(n)] {
 			continue
@@ -1142,7 +1259,20 @@ func TestC39(t *testing.T) {
 				desc[i] = f.String()
 			}
 			rec.Sample(map[string]any{"part": "a", "frames": desc})
-			c39RoundTrip(rt, rec, seq, "generated")
+			var pre *c39Prelude
+			if rapid.IntRange(0, 3).Draw(rt, "prelude") == 0 {
+				pre = &c39Prelude{}
+				for i, n := 0, rapid.IntRange(1, 3).Draw(rt, "preFrames"); i < n; i++ {
+					f := genFrame(rt, false)
+					if i == n-1 && !f.hasHeaders() {
+						f = c39Frame{Kind: "syn_reply", StreamId: 1, Hdrs: genHeaders(rt, false)}
+					}
+					pre.Frames = append(pre.Frames, f)
+				}
+				// somewhere inside (mostly) the last frame, or beyond everything (no failure)
+				pre.Budget = rapid.OneOf(rapid.IntRange(0, 40), rapid.IntRange(0, 400), rapid.IntRange(0, 100000)).Draw(rt, "preBudget")
+			}
+			c39RoundTripP(rt, rec, seq, "generated", pre)
 		} else {
 			r := genRaw(rt)
 			rec.Sample(map[string]any{"part": "b", "class": r.Class, "A_hex": fmt.Sprintf("%x", c39Head(r.A, 64)), "A_len": len(r.A)})
